@@ -25,6 +25,7 @@ def bounds(tier):
                        "(so duplicates and both orders occur), names: empty, 2 symbolic bytes, a latin-1 name whose bytes are "
                        "valid UTF-8, a name with two separators; the locator runs on a live AsyncTasks manager whose tidy "
                        "pass falls inside the run",
+            "bursts": "17 / 24 / 40 spas all answering every broadcast at once (concrete), initial wait n polls + 0.5 s",
             "handlers": "event handlers that return at once; in the slow-handler units (<= 2 replies) handlers that suspend for "
                         "0.12 s or 0.3 s - listing and clean-up clauses only",
             "filters": "none / identifier / address / identifier of a spa that never answers"}
@@ -198,6 +199,53 @@ def discover(maxreplies, slow=False):
     return scenario
 
 
+def burst(sx):
+    """many spas answer the same broadcast at once (more than any small backlog): every one of them is listed once"""
+    import asyncio
+    from sx.vloop import VLoop, patched_time
+    from geckolib.async_locator import GeckoAsyncLocator
+    from geckolib.async_tasks import AsyncTasks
+    from geckolib.config import GeckoConfig
+    import geckolib.config as gc
+    saved = (GeckoConfig.DISCOVERY_INITIAL_TIMEOUT_IN_SECONDS, GeckoConfig.DISCOVERY_TIMEOUT_IN_SECONDS)
+    saved_cc = gc.ConfigChange
+    gc.ConfigChange = None
+    n = [17, 24, 40][sx.choice("spas", 3)]
+    # (the hello consumer takes one datagram per poll: the initial wait leaves room for all of them)
+    GeckoConfig.DISCOVERY_INITIAL_TIMEOUT_IN_SECONDS, GeckoConfig.DISCOVERY_TIMEOUT_IN_SECONDS = n * POLL + 0.5, n * POLL + 1.5
+    loop = VLoop()
+    try:
+        with patched_time(loop):
+            tm = AsyncTasks()
+
+            async def ev(e, **k):
+                pass
+            loc = GeckoAsyncLocator(tm, ev)
+            rounds = [0]
+
+            def on_endpoint(tr, proto, kwargs):
+                def on_send(tr_, data, addr):
+                    # every spa answers every broadcast, always in the same order
+                    rounds[0] += 1
+                    for i in range(n):
+                        proto.datagram_received(b"<HELLO>SPA%02d:00:00:00:00:00|spa %d</HELLO>" % (i, i), ("10.0.1.%d" % i, 10022))
+                tr.on_send = on_send
+            loop.on_endpoint = on_endpoint
+
+            async def session():
+                async with tm:
+                    await loc.discover()
+            loop.run_until_complete(session(), max_time=200.0)
+            ids = [d.identifier for d in loc.spas]
+            sx.observe("listed", len(ids))
+            sx.check(len(set(ids)) == len(ids), "dsc.each-spa-listed-once")
+            sx.check(len(ids) == n, "dsc.burst-every-answering-spa-is-listed", lambda: f"{len(ids)} of {n} after {rounds[0]} broadcasts")
+        loop.cancel_all()
+    finally:
+        GeckoConfig.DISCOVERY_INITIAL_TIMEOUT_IN_SECONDS, GeckoConfig.DISCOVERY_TIMEOUT_IN_SECONDS = saved
+        gc.ConfigChange = saved_cc
+
+
 def threaded_dedup(sx):
     """GeckoLocator._on_discovered: one step from an arbitrary list of already known spas"""
     from geckolib.locator import GeckoLocator
@@ -238,4 +286,5 @@ def units(tier):
         yield Unit(f"discover.filter{f}", discover(n), presets={"filter": f}, max_paths=200000)
     for f in range(4):
         yield Unit(f"discover.slow-handler.filter{f}", discover(2, slow=True), presets={"filter": f}, max_paths=200000)
+    yield Unit("burst", burst, validate=False)
     yield Unit("threaded-dedup", threaded_dedup)
